@@ -19,7 +19,7 @@ EXPLANATION = (
     "the shapes of state.setter/_next_state/_change_state/next_state_indirect the model assumes are checked; R3 the "
     "three uncommandable targets raise before any controlword store; R4 mode tables mutually consistent and equal to "
     "CiA 402, support check dominates both 0x6060 stores and its TypeError is not swallowed; R5 the controlword "
-    "setter hands every assigned value to the drive (PDO store + transmit when not periodic, else SDO) on every path; R6 structural assumptions shared by all properties: no class-level mutable object is mutated in place by instances, no method re-runs the constructor, logging statements cannot raise."
+    "setter hands every assigned value to the drive (PDO store + transmit when not periodic, else SDO) on every path; R7 the pointer tables (rpdo_pointers, tpdo_pointers/tpdo_values) are filled from enabled PDO maps only -- a disabled RPDO that maps 0x6040 must not capture the controlword (the drive ignores its COB-ID and the SDO fallback is lost); the filter may sit at the registration, in the iterated comprehension, or in a generator helper; R6 structural assumptions shared by all properties: no class-level mutable object is mutated in place by instances, no method re-runs the constructor, logging statements cannot raise."
 )
 ASSUMPTIONS = [
     "not decided: drive timing, automatic transitions racing the library's status reads, timeouts",
@@ -293,6 +293,8 @@ def run(chk):
                 chk.check(("pdo.is_periodic", False) in g or ("not pdo.is_periodic", True) in g, "R5",
                           f"{P}:BaseNode402.controlword.setter | transmit when not periodic", cw.loc(t.ast), f"transmit under {g}")
 
+    # ------------------------------------------------------------------ R7 only enabled PDO maps carry the controlword / statusword
+    _enabled_maps_only(chk, repo)
     # ------------------------------------------------------------------ R6 instances are independent (shared clause)
     from . import shared as _shared
     _shared.isolation(chk, "R6", rels=['canopen/profiles/p402.py', 'canopen/pdo/base.py'])
@@ -432,3 +434,57 @@ def _machine_shapes(chk, repo, folder) -> bool:
     else:
         chk.ok("R2", f"{P}:BaseNode402.state.setter | shape", se.loc())
     return ok
+
+
+def _enabled_maps_only(chk, repo):
+    """R7: every registration in rpdo_pointers / tpdo_pointers / tpdo_values happens for objects of an enabled map."""
+    from .common import ff_for as _ff
+    cls = repo.cls(P, "BaseNode402", "C19.R7")
+    n_sites = 0
+
+    def filtered_iter(ff, e, depth=0) -> bool:
+        """Does the iterable expression only produce (objects of) enabled maps?"""
+        if depth > 3 or e is None:
+            return False
+        if isinstance(e, ast.Name):
+            d = ff.one_def(e.id)
+            return d is not None and filtered_iter(ff, d, depth + 1)
+        if isinstance(e, (ast.ListComp, ast.GeneratorExp, ast.SetComp)):
+            if any(src(c).endswith(".enabled") for g in e.generators for c in g.ifs):
+                return True
+            return any(filtered_iter(ff, g.iter, depth + 1) for g in e.generators)
+        if isinstance(e, ast.Call) and dotted(e.func) in ("list", "tuple", "iter", "sorted") and e.args:
+            return filtered_iter(ff, e.args[0], depth + 1)
+        if isinstance(e, ast.Call) and (dotted(e.func) or "").split(".")[0] in ("self", "BaseNode402") and (dotted(e.func) or "").count(".") == 1:
+            hname = dotted(e.func).split(".")[1]
+            h = cls.methods.get(hname)
+            if h is None:
+                return False
+            hf = _ff(chk, h, "C19.R7")
+            ys = [n for n in own_nodes(h.node) if isinstance(n, (ast.Yield, ast.Return)) and getattr(n, "value", None) is not None]
+            guarded = bool(ys) and all(any(p and src(t).endswith(".enabled") for t, p in hf.facts_at(hf.stmt_of(y))) for y in ys)
+            if guarded:
+                return True
+            return any(filtered_iter(ff, a, depth + 1) for a in e.args)
+        return False
+    for mname in ("_init_rpdo_pointers", "_init_tpdo_values"):
+        m = cls.methods.get(mname)
+        if m is None:
+            chk.unk("R7", f"{P}:BaseNode402.{mname}", f"{P}:{cls.node.lineno}", "method not found")
+            continue
+        ff = _ff(chk, m, "C19.R7")
+        sites = []
+        for n in own_nodes(m.node):
+            if isinstance(n, ast.Assign) and isinstance(n.targets[0], ast.Subscript) and dotted(n.targets[0].value) in ("self.rpdo_pointers", "self.tpdo_pointers", "self.tpdo_values"):
+                sites.append(n)
+            elif isinstance(n, ast.Call) and dotted(n.func) in ("self.rpdo_pointers.setdefault", "self.tpdo_pointers.setdefault", "self.tpdo_values.setdefault",
+                                                                   "self.rpdo_pointers.update", "self.tpdo_pointers.update", "self.tpdo_values.update"):
+                sites.append(ff.stmt_of(n))
+        for st in sites:
+            n_sites += 1
+            by_fact = any(p and src(t).endswith(".enabled") for t, p in ff.facts_at(st))
+            loops = [lp for lp in own_nodes(m.node) if isinstance(lp, ast.For) and any(x is st for x in ast.walk(lp))]
+            by_iter = any(filtered_iter(ff, lp.iter) for lp in loops)
+            chk.check(by_fact or by_iter, "R7", f"{P}:BaseNode402.{mname} | `{src(st)[:50]}` only for enabled maps", m.loc(st),
+                      "objects of disabled PDO maps are registered as well: a disabled RPDO mapping 0x6040 captures the controlword (sent on a COB-ID the drive ignores)")
+    chk.floor("R7", n_sites, 2, "registrations in rpdo_pointers / tpdo_pointers / tpdo_values")
